@@ -37,6 +37,17 @@ type CertQ struct {
 	SignPrefix int   `json:"sign_prefix"` // the signers' view: the first SignPrefix records of the history
 	SignTs     uint64 `json:"sign_ts"`    // timestamp at which the signers read their key vector
 	Pos        []int `json:"pos"`         // mask positions in the signers' key vector
+	// Steps: what is done with the certificate, in order, on the one node (its
+	// verification cache stays warm between steps).  Empty = one "final" step.
+	Steps []Step `json:"steps,omitempty"`
+}
+
+// Step kinds: "final" verifyFinalization; "leader" the leader's check in
+// cosiHandleResponse (key vector and NON-final threshold of the timestamp);
+// "direct" cacheVerifyCosi over the chain's key vector with threshold Thr.
+type Step struct {
+	Kind string `json:"kind"`
+	Thr  int    `json:"thr,omitempty"`
 }
 
 type Case struct {
@@ -238,25 +249,57 @@ func runCerts(c *vh.Ctx, cs Case) {
 			c.Count("cert:unsignable")
 			continue
 		}
-		_, ok := chain.VerifC10VerifyFinalization(snap)
 		pos := make([]string, len(q.Pos))
 		for i, p := range q.Pos {
 			pos[i] = fmt.Sprint(p)
 		}
-		ct = append(ct, vh.App("Cert", zts(q.Ts), coqPledging(nw, cs.Recs, info), fmt.Sprint(q.Round),
-			coqIds(nw, sids), lst(pos), vh.Bool(ok)))
-		if ok {
+		steps := q.Steps
+		if len(steps) == 0 {
+			steps = []Step{{Kind: "final"}}
+		}
+		one := cs
+		one.Certs = []CertQ{q}
+		k := len(q.Pos)
+		for _, st := range steps {
+			switch st.Kind {
+			case "leader":
+				_, lok := chain.VerifC10LeaderVerify(snap)
+				node.VerifC10CacheWait()
+				c.Count("step:leader")
+				// sanity from the text: the leader needs the non-final threshold
+				if tn := node.VerifC10ConsensusThreshold(q.Ts, false); lok && k < tn {
+					c.Fail("leader-check-below-threshold", fmt.Sprintf("leader check accepted %d signers, non-final threshold %d", k, tn), one)
+				}
+				continue
+			case "direct":
+				_, dok := chain.VerifC10CacheVerifyCosi(snap, st.Thr)
+				node.VerifC10CacheWait()
+				c.Count("step:direct")
+				if dok && k < st.Thr {
+					c.Fail("direct-check-below-threshold", fmt.Sprintf("cacheVerifyCosi accepted %d signers for threshold %d", k, st.Thr), one)
+				}
+				continue
+			}
+			_, ok := chain.VerifC10VerifyFinalization(snap)
+			node.VerifC10CacheWait()
+			c.Count("step:final")
+			ct = append(ct, vh.App("Cert", zts(q.Ts), coqPledging(nw, cs.Recs, info), fmt.Sprint(q.Round),
+				coqIds(nw, sids), lst(pos), vh.Bool(ok)))
+			if !ok {
+				continue
+			}
 			nontrivial = true
-			// oracle: an accepted certificate of k signers over the n keys it was
-			// checked against leaves room for a second one sharing 2k-n keys
+			// oracle (independent of what was verified before): an accepted
+			// certificate of k signers over the n keys it was checked against leaves
+			// room for a second one sharing 2k-n keys; k reaches the final threshold of
+			// the timestamp; below the minimum membership nothing is final
 			vids, _ := chain.VerifC10ConsensusKeys(q.Round, q.Ts)
 			vids1, _ := chain.VerifC10ConsensusKeys(q.Round+1, q.Ts)
-			n, k := len(vids), len(q.Pos)
-			if len(sids) > n {
+			n := len(vids)
+			legacy := len(sids) > n
+			if legacy {
 				n = len(sids) // accepted through the legacy vector
 			}
-			one := cs
-			one.Certs = []CertQ{q}
 			mi := 2*k - n
 			if mi < 0 {
 				mi = 0
@@ -269,6 +312,9 @@ func runCerts(c *vh.Ctx, cs Case) {
 				} else {
 					c.Fail("certificate-accepted-below-two-thirds", what, one)
 				}
+			}
+			if tf := node.VerifC10ConsensusThreshold(q.Ts, true); !legacy && k < tf {
+				c.Fail("final-below-final-threshold", fmt.Sprintf("verifyFinalization accepted %d signers at ts=%d, the final threshold is %d", k, q.Ts, tf), one)
 			}
 			if acceptedCount(cs.Recs, q.Ts) < config.KernelMinimumNodesCount {
 				c.Fail("below-minimum-certificate-accepted", fmt.Sprintf("certificate accepted at ts=%d with fewer than the minimum accepted nodes", q.Ts), one)
@@ -314,7 +360,8 @@ func main() {
 		"(LoadConsensusNodes over an in-memory store) with 6..40 query timestamps placed at every boundary (+-1 ns around accept+reference window, " +
 		"accept+maturity period, pledge+period, operation-window edges, signer-set fork) and rounds 0/1 of pledging and established chains; " +
 		"non-trivial = at least one query reached the threshold formula (effective base >= minimum); distinct = different multiset of " +
-		"(keys, thresholds, removal exclusion, round-0 pledging) observations; certs = real CoSi certificates verified by verifyFinalization"
+		"(keys, thresholds, removal exclusion, round-0 pledging) observations; certs = real CoSi certificates verified by verifyFinalization, " +
+		"also as stateful sequences on one node (leader check with the non-final threshold / a lower chosen threshold first, then final, and the reverse order) so the verification cache is warm"
 	if c.Replay != "" {
 		var cs Case
 		c.ReplayCase(&cs)
